@@ -44,8 +44,8 @@ RULE = ("(1) converter trees: every tree of depth <= 1 over 13 leaf kinds (plain
         "bool/int and a subclass pair, names, equal-but-distinct and same-name-different Attributes, "
         "junk) - all subsets in the thorough tier, all of size <= 2 plus random ones in quick - each "
         "probed on all 35 (attribute, value) pairs, plus shuffled/duplicated spellings.  (4) cmp_using: "
-        "all 64 configurations x 9 value pairs (same class, different class, bool vs int, identical "
-        "object) with honest functions, plus random behaviours (constant True/False/NotImplemented, "
+        "all 64 configurations x 23 value pairs (same class, unrelated classes, identical object, and "
+        "subclass-related classes in both operand orders: bool/int, float/float-subclass, str/str-subclass) with honest functions, plus random behaviours (constant True/False/NotImplemented, "
         "flipped, negated); all six operators called as dunder methods.  distinct = distinct case "
         "literal; non-trivial = converter tree with at least one combinator, any to_bool input, a "
         "non-empty what, a configuration with at least one function")
@@ -824,12 +824,32 @@ def gen_filters(tier, rng):
 OPS = ["eq", "ne", "lt", "le", "gt", "ge"]
 FUNCS = ["eq", "lt", "le", "gt", "ge"]
 # wrapped values: (python value, class number, rank)
-C_VALUES = {"i1": (1, 0, 1), "i2": (2, 0, 2), "f1": (1.0, 1, 1), "f2": (2.0, 1, 2), "sa": ("a", 2, 5),
-            "bT": (True, 3, 1)}
-# (left, right, same wrapper object)
+class FloatSub(float):
+    pass
+
+
+class StrSubC(str):
+    pass
+
+
+# wrapped values: name -> (python value, rank).  The class number the model sees is the index of
+# the value's EXACT class (type(v), never isinstance) in C_CLASSES: bool is not int, a float
+# subclass is not float, a str subclass is not str.
+_C_RAW = {"i1": (1, 1), "i2": (2, 2), "f1": (1.0, 1), "f2": (2.0, 2), "sa": ("a", 5), "bT": (True, 1),
+          "bF": (False, 0), "i0": (0, 0), "F1": (FloatSub(1.0), 1), "F2": (FloatSub(2.0), 2),
+          "Sa": (StrSubC("a"), 5)}
+C_CLASSES = [int, float, str, bool, FloatSub, StrSubC]
+C_VALUES = {k: (v, C_CLASSES.index(type(v)), r) for k, (v, r) in _C_RAW.items()}
+assert all(type(v) is C_CLASSES[c] for v, c, _r in C_VALUES.values())
+# (left, right, same wrapper object); every subclass-related pair appears in BOTH operand orders
 C_PAIRS = [("i1", "i2", False), ("i2", "i1", False), ("i1", "i1", False), ("i1", "i1", True),
-           ("i1", "f1", False), ("f1", "i2", False), ("i2", "sa", False), ("bT", "i1", False),
-           ("f2", "f1", False)]
+           ("i1", "f1", False), ("f1", "i2", False), ("i2", "sa", False), ("f2", "f1", False),
+           # bool is a subclass of int
+           ("bT", "i1", False), ("i1", "bT", False), ("bF", "i0", False), ("i0", "bF", False),
+           ("bT", "i2", False), ("i2", "bT", False), ("bT", "bF", False),
+           # float vs a float subclass, str vs a str subclass
+           ("f1", "F1", False), ("F1", "f1", False), ("f1", "F2", False), ("F2", "f1", False),
+           ("sa", "Sa", False), ("Sa", "sa", False), ("F1", "F2", False), ("Sa", "Sa", False)]
 BEHS = ["H", "T", "F", "N", "flip", "neg"]
 
 
@@ -838,6 +858,19 @@ def _rank(x):
         if type(v) is type(x) and v == x:
             return r
     raise AssertionError(x)
+
+
+def _pair_kind(l, r, same):
+    if same:
+        return "identical-object"
+    a, bb = C_VALUES[l][0], C_VALUES[r][0]
+    if type(a) is type(bb):
+        return "same-class"
+    if isinstance(bb, type(a)):
+        return "right-is-subclass-instance"
+    if isinstance(a, type(bb)):
+        return "left-is-subclass-instance"
+    return "unrelated-classes"
 
 
 def _honest(op, x, y):
@@ -913,7 +946,8 @@ def mk_cmp_case(inp):
         _v, c, rk = C_VALUES[name]
         return "(%d, Build_cval %d %s)" % (ident, c, vlib.z(rk))
     term = "(KCmp %s %s %s %s %s)" % (cfg, bs, wv(l, 0), wv(l if same else r, 0 if same else 1), seen)
-    return Case(term, inp, seen_json, sig={"part": "cmp_using"}, nontrivial=any(have.values()), key=term)
+    return Case(term, inp, seen_json, sig={"part": "cmp_using", "pair_kind": _pair_kind(l, r, same)},
+                nontrivial=any(have.values()), key=term)
 
 
 def gen_cmp(tier, rng):
@@ -978,5 +1012,6 @@ def distribution(cases):
     ctxs = Counter(c.inp.get("ctx") for c in cases if c.inp.get("part") == "conv")
     depths = Counter(depth(c.inp.get("tree")) for c in cases if c.inp.get("part") == "conv")
     flav = Counter(c.inp.get("flavour") for c in cases if c.inp.get("part") == "conv" and c.inp.get("flavour"))
-    return {"parts": dict(parts), "converter_contexts": dict(ctxs),
+    pk = Counter(c.sig.get("pair_kind") for c in cases if c.sig.get("part") == "cmp_using")
+    return {"parts": dict(parts), "cmp_using_pair_kinds": dict(pk), "converter_contexts": dict(ctxs),
             "converter_tree_depths": dict(sorted(depths.items())), "class_flavours": dict(flav)}
